@@ -29,7 +29,7 @@ RULE = ('the real CRTTransferManager Python layer against a stub awscrt (the nat
 ASSUMPTIONS = ['whether the real awscrt honours the callback contract is outside this repository',
                'CRTTransferManager(osutil=...) is not used: its constructor only sets _osutil when osutil is None (observed, not part of C20)']
 CASE_TIMEOUT = 180.0
-OUTCOMES = ['ok', 'error', 'cancel', 'serialize_fail', 'make_fail']
+OUTCOMES = ['ok', 'error', 'cancel', 'serialize_fail', 'make_fail', 'queued_fail']
 
 
 class CountingSemaphore:
@@ -59,11 +59,14 @@ class CountingSemaphore:
 
 
 class Sub:
-    def __init__(self, run, idx, name, raise_on_done=False, slow=False):
+    def __init__(self, run, idx, name, raise_on_done=False, slow=False, raise_on_queued=False):
         self.run, self.idx, self.name, self.raise_on_done, self.slow = run, idx, name, raise_on_done, slow
+        self.raise_on_queued = raise_on_queued
 
     def on_queued(self, future, **kw):
         self.run.log.add('cb.on_queued', idx=self.idx, sub=self.name)
+        if self.raise_on_queued:
+            raise RuntimeError(f'vf-on_queued-raises-{self.idx}')
 
     def on_progress(self, future, bytes_transferred, **kw):
         self.run.log.add('cb.on_progress', idx=self.idx, sub=self.name, nbytes=bytes_transferred)
@@ -140,8 +143,10 @@ def run_spec(spec):
                 tls.submitting = i
                 data = bytes(rng.randrange(256) for _ in range(t.get('size', 10)))
                 datas[i] = data
-                subs = [Sub(run, i, f's{k}', raise_on_done=(t.get('raise_on_done') and k == 0), slow=(t.get('slow') and k == 0))
-                        for k in range(t.get('subs', 1))]
+                nsub = t.get('subs', 1)
+                subs = [Sub(run, i, f's{k}', raise_on_done=(t.get('raise_on_done') and k == 0), slow=(t.get('slow') and k == 0),
+                            raise_on_queued=(t['outcome'] == 'queued_fail' and k == nsub - 1))
+                        for k in range(nsub)]
                 log.add('submit.begin', idx=i)
                 try:
                     if t['kind'] == 'upload':
